@@ -50,6 +50,18 @@ def run(spec, tier, seed, replay=None):
                     axioms_seen.add(a)
                     if a not in V.AXIOM_ALLOW and a.split(".")[-1] not in V.AXIOM_ALLOW:
                         broken_obl.append({"kind": "axiom", "detail": a, "file": os.path.relpath(f, V.COQ)})
+    # thorough tier: the independent checker re-checks the compiled property files and everything they depend on
+    if ok and tier == "thorough":
+        mods = []
+        for t in targets:
+            d, b = t.split("/")[0], os.path.basename(t)[:-3]
+            mods.append({"props": "HipProps", "tie": "HipTie", "theories": "Hip", "gen": "HipGen"}[d] + "." + b)
+        rc, cout = V.sh(["coqchk", "-silent", "-o", "-Q", "theories", "Hip", "-Q", "gen", "HipGen", "-Q", "tie", "HipTie", "-Q", "props", "HipProps"] + mods, cwd=V.COQ, timeout=3000)
+        am = re.search(r"\* Axioms:\s*(.*?)\n\s*\n", cout, re.S)
+        ax_txt = " ".join(am.group(1).split()) if am else "?"
+        notes.append("coqchk (independent checker) on %s: rc=%s, axioms: %s" % (" ".join(mods), rc, ax_txt))
+        if rc != 0 or ax_txt != "<none>" or "type-in-type: <none>" not in " ".join(cout.split()):
+            broken_obl.append({"kind": "coqchk", "detail": cout[-1500:]})
     # obligations: the property theorems, the transfer lemmas, and every lemma of the theories they depend on
     dep_files = sorted(f for f in deps if f not in vfiles and "/theories/Cases" not in f)
     n_obl, obl_names = V.count_obligations(vfiles + dep_files)
